@@ -9,7 +9,9 @@
      code 2  it satisfies the monitor but differs from the model's trace for the same schedule
      code 0  otherwise; also for traces outside the property's domain (lb went negative)      *)
 From Coq Require Import List Arith ZArith Bool.
-From GT Require Import Base.Verdict Base.Conc WGModel WGSpec.
+From GT Require Import Base.Verdict.
+From GT Require Import Base.Conc.
+From GT Require Import WGModel WGSpec.
 Import ListNotations.
 Local Open Scope Z_scope.
 
